@@ -275,7 +275,8 @@ def prox_log_sum(x, alpha, eps):
 @njit
 def _r2(x, alpha, eps):
     # compute r2 as in (eq. 7), ref [1] in `prox_log_sum`
-    return (x - eps) / 2. + np.sqrt(((x + eps) ** 2) / 4 - alpha)
+    # the discriminant is zero at x = 2 sqrt(alpha) - eps, clip round-off below zero
+    return (x - eps) / 2. + np.sqrt(max(((x + eps) ** 2) / 4 - alpha, 0.))
 
 
 @njit
@@ -295,6 +296,7 @@ def _r(x, alpha, eps):
 @njit
 def _find_root_by_bisection(a, b, alpha, eps, tol=1e-8):
     # find root of function func in interval [a, b] by bisection."""
+    c = (a + b) / 2.
     while b - a > tol:
         c = (a + b) / 2.
         if _r(a, alpha, eps) * _r(c, alpha, eps) < 0:
